@@ -64,6 +64,8 @@ impl Base {
             1 => h1,
             2 => (h1 * 2u32) % n,
             3 => (h1 + n - 1u32) % n,
+            // 4: the negative of the key "as given" (Ppub-s becomes -Ppub-s: same x coordinate)
+            4 => n - (from_be(&self.ks) % (n - 1u32) + 1u32),
             _ => from_be(&self.ks) % (n - 1u32) + 1u32,
         };
         if k.is_zero() { BigUint::one() } else { k }
@@ -394,6 +396,26 @@ pub fn run(ctx: &Ctx) {
             }
             for i in (((seed as usize + bi) % step)..512).step_by(step) {
                 v.push(TCase { base: b.clone(), tamper: Tamper::FlipS(i as u16) });
+            }
+        }
+        v
+    }, check_tamper);
+
+    ctx.listed("related_master_key_sequences", "sign + verify under ks, then N-ks (negated master public key: same x), then ks again, then ks+1 — executed in order on one thread inside one case, so that anything the library remembers between calls (memoised pairing values) is carried over", move || {
+        let mut v = Vec::new();
+        for i in 0..3u64 {
+            let b = |rel: u8, bump: u64, j: u64| Base { ks: gen::hex32(&(BigUint::from(0x5eed_0000u64 + i * 1000 + bump))), ks_rel: rel, id_len: 3 + i as usize, id_seed: seed ^ i, msg_len: 10 + j as usize, msg_seed: seed ^ (i << 8) ^ j, r: Hex(expand_bytes(seed ^ 0x5e9 ^ (i << 8) ^ j, 32)) };
+            v.push(vec![b(0, 0, 0), b(4, 0, 1), b(0, 0, 2), b(0, 1, 3), b(4, 0, 4), b(4, 1, 5)]);
+        }
+        v
+    }, |steps: &Vec<Base>| seq(steps, |b| { check_sign(b)?; check_ref_signed(b) }));
+
+    ctx.cold("cold_start_sign", "SM9 sign (r injected) as the first library operation of a fresh process", move || fixed_bases(seed ^ 0xc09d, 2), check_sign);
+    ctx.cold("cold_start_verify", "SM9 verify as the first library operation of a fresh process: untouched, altered h, -S, other message", move || {
+        let mut v = Vec::new();
+        for b in fixed_bases(seed ^ 0xc09e, 2) {
+            for t in [Tamper::None, Tamper::FlipH(9), Tamper::SNeg, Tamper::OtherMessage] {
+                v.push(TCase { base: b.clone(), tamper: t });
             }
         }
         v
